@@ -396,7 +396,18 @@ def check_legality_matrix(ctx):
                     continue
                 if isinstance(x, ast.Assert) and isinstance(x.test, ast.Constant) and not x.test.value:
                     return outs | {"raise:other"}
-                if isinstance(x, (ast.Try, ast.While, ast.For, ast.With, ast.Return, ast.Continue, ast.Break)):
+                if isinstance(x, ast.Break):
+                    return outs | {"break"}
+                if isinstance(x, ast.While) and isinstance(x.test, ast.Constant) and x.test.value and not x.orelse:
+                    # a single-pass block (an inlined helper): `break` leaves it
+                    res = run(x.body)
+                    if "pass" in res:
+                        raise AnalysisError("C14.4: a `while True` block in a dim-type branch can loop")
+                    outs |= res - {"break"}
+                    if "break" not in res:
+                        return outs
+                    continue
+                if isinstance(x, (ast.Try, ast.While, ast.For, ast.With, ast.Return, ast.Continue)):
                     raise AnalysisError(f"C14.4: statement `{short(x, 50)}` in a dim-type branch is outside what the legality table can interpret")
             return outs | {"pass"}
 
@@ -408,7 +419,7 @@ def check_legality_matrix(ctx):
         for bits in _it.product((False, True), repeat=4):
             val = dict(zip(FLAGS, bits))
             must = any(all(val[x] for x in (key if isinstance(key, tuple) else (key,))) for key in ref)
-            got = outcomes(branches[k], val)
+            got = {("pass" if x == "break" else x) for x in outcomes(branches[k], val)}  # a `break` out of a single-pass block = done
             n += 1
             on = tuple(fl for fl in FLAGS if val[fl])
             if got == {"pass"}:
